@@ -8,7 +8,7 @@ import itertools
 
 import numpy as np
 
-STRUCTURES = ["dense", "sparse", "determ", "samesucc", "absorbing", "unreach", "dupaction", "ties"]
+STRUCTURES = ["dense", "sparse", "determ", "samesucc", "absorbing", "unreach", "dupaction", "ties", "dag"]
 
 
 def _factor_box(rng, n, ndim):
@@ -91,6 +91,13 @@ def build(spec):
         nxt[:, 1] = nxt[:, 0]
         rew[:, 1] = rew[:, 0]
         prob[:, 1] = prob[:, 0]
+    elif st == "dag":
+        # finite horizon: every transition goes to a strictly higher state, the last state is an absorbing
+        # zero-reward sink => value iteration is exact after S sweeps for ANY discount factor (also 1-1e-9)
+        for s_ in range(S):
+            lo = min(s_ + 1, S - 1)
+            nxt[s_] = r.integers(lo, S, size=(A, E))
+        rew[S - 1] = 0.0
     elif st == "ties" and A > 1:
         # action 1 = action 0 with the events permuted: equal Q by construction
         perm = r.permutation(E)
